@@ -218,6 +218,8 @@ def run(ctx):
     c11.subdivision_scenarios(ctx, 'R12.6', [(2, [(1, 2), (2, 1)]), (2, [(0, 0), (3, 3)]), (1, [(0, 0), (1, 0)]), (1, [(0, 1), (1, 1)])])
     # one crossing at a corner where four sub-boxes meet (next to a piece boundary of BOTH curves): known finding F24
     c11.subdivision_scenarios(ctx, 'R12.6', [(1, [(0, 0), (0, 1), (1, 0), (1, 1)])], mode='once')
+    # the same figure 2^50 away from the origin: overlaps of the same size must be found all the same
+    c11.subdivision_scenarios(ctx, 'R12.6', [(2, [(1, 2), (2, 1)])], offset=2 ** 50)
 
     # ---------------------------------------------------------------- R12.4
     c08.cubic_minmax(ctx, 'R12.4')
